@@ -8,10 +8,11 @@ updates, in the order in which the real code performs them:
 
 * `Step.write n c` — the task body wrote product file `n` (one `Path.write_text` / one `node.save`),
   `execute.py:pytask_execute_task` → `task.execute` → body;
-* `Step.row t v h` — one state row `(task t, neighbour v) ↦ h` was committed;
-  `database_utils.py:_create_or_update_state` opens a session, upserts ONE row and commits, and
-  `update_states_in_database` calls it once per element of `node_and_neighbors` (predecessors, the task,
-  successors), each time with the state the node has at that moment.
+* `Step.rows t rs` — ALL state rows of task `t` were committed in one transaction: `update_states_in_database` opens one
+  session, upserts the row of every element of `node_and_neighbors` (predecessors, the task, successors; each with the state
+  the node has at that moment) and commits once (the repair of finding F50; `Generated.rowsSingleTransaction`);
+* `Step.row t v h` — one state row committed on its own: the code before that repair (kept as the fine-grained refinement
+  `…Each`, and used again by `rowSteps` when the translator reports one commit per row).
 
 Nothing else of a build touches the files or the `state` table (the `runtime` row of `profile.py` is not
 read by the engine; hook boundaries change nothing), so a process killed at any instant leaves the world
